@@ -78,7 +78,7 @@ RULE = (
 )
 SCOPE = {
     "quick": {"NSEQ": 160, "NBAND": 80, "NR": 5, "NR2": 3, "POOL": 3, "NSECOND": 2},
-    "thorough": {"NSEQ": 2400, "NBAND": 1280, "NR": 8, "NR2": 4, "POOL": 4, "NSECOND": 3},
+    "thorough": {"NSEQ": 1600, "NBAND": 800, "NR": 8, "NR2": 4, "POOL": 4, "NSECOND": 3},
 }
 FLOOR = {"quick": 1500, "thorough": 4000}
 REQUIRED_MONITORS = ["pos.members", "pos.bounds", "pos.refusal", "id.members", "member.dict", "member.sequence"]
@@ -767,7 +767,8 @@ def _pos_query(ctx, M, obj, s, e, flags, gen, mode):
         extra = {}
         if type(exc).__name__ == "EmptyLocationException" and M["win"] is not None:
             extra = _kept_model(x["keep"] + x["optional"], (max(x["bounds"][0], M["win"][0]), min(x["bounds"][1], M["win"][1])))
-        ctx.check("pos.refusal", False, key=("valid-query-raised", type(exc).__name__, "vcoll+coding_only" if (co and any(m["t"] == "vcoll" for m in M["members"])) else "plain"),
+        mech = "sliced-child+variants" if extra and variant_slice_mechanism(extra["kept_model"], extra["expected_window"]) else "plain"
+        ctx.check("pos.refusal", False, key=("valid-query-raised", type(exc).__name__, "vcoll+coding_only" if (co and any(m["t"] == "vcoll" for m in M["members"])) else mech),
                   exc=repr(exc)[:300], has_variant_collections=any(m["t"] == "vcoll" for m in M["members"]), **extra, **detail)
         return None
     ctx.seen("pos.refusal")
@@ -875,7 +876,8 @@ def _id_suite(ctx, M, obj, rs, pool_n, gen, mode):
                 if type(exc).__name__ == "EmptyLocationException" and M["win"] is not None:
                     # an id query can at most keep the sequence under the operand's own bounds
                     extra = _kept_model(expected, (max(M["start"], M["win"][0]), min(M["end"], M["win"][1])))
-                ctx.check("id.members", False, key=("raised", fn, type(exc).__name__, "kept-member-overhangs-bounds" if overhang else "inside"),
+                mech = "sliced-child+variants" if extra and variant_slice_mechanism(extra["kept_model"], extra["expected_window"]) else "plain"
+                ctx.check("id.members", False, key=("raised", fn, type(exc).__name__, "kept-member-overhangs-bounds" if overhang else "inside", mech),
                           exc=repr(exc)[:300], kept_spans=[list(span(m)) for m in expected][:6], **extra, **detail)
                 continue
             b, exc = ctx.call(lambda: (res.start, res.end))
